@@ -43,6 +43,15 @@ CLAIMED = {
             "order independence, path agreement and operand preservation", "§4 C11"),
     "C12": ("bounded symbolic execution of all conversion variants and droplet properties in dims 1-3; z3 decides "
             "round trips, variant agreement, derivative sandwich for all r>=0, V>=0, h>0", "§4 C12"),
+    "C14": ("bounded symbolic execution of DropletTracker.handle/finalize vs EmulsionTimeCourse.from_storage over <=3 "
+            "frames with locate_droplets as an uninterpreted function of all its arguments, symbolic times / "
+            "threshold / minimal radius, option sets enumerated; file round trip through the store model; "
+            "LengthScaleTracker with an analysis stub that raises any of 7 exception types on a symbolic subset "
+            "of frames", "§4 C14"),
+    "C15": ("bounded symbolic execution of EmulsionTimeCourse.from_storage and refine_droplets / locate_droplets("
+            "refine=True) against a process-pool model (tasks on deep copies, every completion order of 3-4 tasks, "
+            "num_processes in {1,2,3,'auto'}) with locate_droplets / least_squares as uninterpreted functions of "
+            "all their arguments; float replays use the real ProcessPoolExecutor", "§4 C15"),
     "C18": ("bounded symbolic execution of locate_droplets threshold dispatch / binarisation / size filters and of "
             "threshold_otsu on symbolic field values (Cartesian 1D 4 cells, 2D 2x2, polar 3; Otsu on 4-5 values with "
             "2-4 bins, histogram by its definition); z3 decides binary image = field > documented threshold, Otsu = "
